@@ -269,3 +269,12 @@ impl ErrorType for EmptyWriter {
 }
 
 
+
+//@ /// what any sequence of calls to the Writer API guarantees (ASSUMED of application code that is handed a Writer:
+//@ /// command handlers, `Cli::write` closures, derive-generated help printers)
+//@ #[verifier::prophetic]
+//@ pub open spec fn writer_api_only<W: Write<Error = E>, E: Error>(w: &mut Writer<'_, W, E>) -> bool {
+//@     &&& final(w).wf() && final(w).base == w.base
+//@     &&& final(w).fin_evs() == w.fin_evs() && final(w).fin_errs() == w.fin_errs()
+//@     &&& final(w).errs() >= w.errs()
+//@ }
